@@ -45,7 +45,10 @@ func trickleCase(c *fw.Ctx, idx int) {
 	for time.Now().Before(end) {
 		ci := k % nCids
 		vseq := fmt.Sprintf("t%d", k)
-		if err := rep.cons.LogPin(ctx, mkPin(ci, vseq, r)); err == nil {
+		octx, ocancel := context.WithCancel(ctx) // the submitter's context ends with the call
+		err := rep.cons.LogPin(octx, mkPin(ci, vseq, r))
+		ocancel()
+		if err == nil {
 			log = append(log, acc{ci, vseq, time.Now()})
 		}
 		k++
